@@ -236,6 +236,7 @@ func okOutcome() outcome { return outcome{OK: true} }
 
 var reQuoted = regexp.MustCompile(`"(?:[^"\\]|\\.)*"|'[^']*'`)
 var reDigits = regexp.MustCompile(`[0-9]+`)
+var reNest = regexp.MustCompile(`(in body-type-(Npart|mpart): )+`)
 
 // errClass strips the variable parts of an error message.
 func errClass(err error) string {
@@ -248,6 +249,7 @@ func errClass(err error) string {
 	}
 	s = reQuoted.ReplaceAllString(s, "_")
 	s = reDigits.ReplaceAllString(s, "N")
+	s = reNest.ReplaceAllString(s, "in body: ")
 	if len(s) > 100 {
 		s = s[:100]
 	}
@@ -317,10 +319,23 @@ func report(key string, fam string, ci, idx int, detail map[string]interface{}) 
 	}
 }
 
-func knownKey(key string) bool {
+func knownRank(key string) *[3]int {
 	repMu.Lock()
 	defer repMu.Unlock()
-	return pending[key] != nil
+	if c := pending[key]; c != nil {
+		r := c.rank
+		return &r
+	}
+	return nil
+}
+
+func rankLess(a, b [3]int) bool {
+	for k := 0; k < 3; k++ {
+		if a[k] != b[k] {
+			return a[k] < b[k]
+		}
+	}
+	return false
 }
 
 func flushReports() {
@@ -402,17 +417,20 @@ func mkJobs(thorough bool) []job {
 	return jobs
 }
 
-// execSafe runs a batch, reconnecting first when needed; engine problems (cannot connect at
-// all) are engine errors, never verdicts.
+// execSafe runs a batch, reconnecting first when needed. A connection that cannot be set up
+// (greeting / LOGIN / ENABLE do not come through) is a verdict about the code under test, not an
+// engine error: those responses are server data reaching the client too.
 func (w *worker) execSafe(f *family, ci int, idxs []int) []outcome {
 	cn, err := w.getConn(configs[ci], f.caps)
 	if err != nil {
-		// one retry on a fresh server
-		cn2, err2 := w.getConn(configs[ci], f.caps)
-		if err2 != nil {
-			run.EngineError("worker %d cannot set up a %s connection: %v / %v", w.id, configs[ci].Name, err, err2)
+		cn, err = w.getConn(configs[ci], f.caps) // one retry
+	}
+	if err != nil {
+		outs := make([]outcome, len(idxs))
+		for k := range outs {
+			outs[k] = outcome{Key: "setup:" + errClass(err), Detail: map[string]interface{}{"error": err.Error(), "note": "greeting / LOGIN / ENABLE failed"}}
 		}
-		cn = cn2
+		return outs
 	}
 	w.tick(fmt.Sprintf("%s cfg=%s idx=%v", f.name, configs[ci].Name, idxs))
 	outs := f.exec(cn, idxs)
@@ -491,7 +509,10 @@ func (w *worker) runJob(j job) {
 			key = f.renameKey(i, key, &o)
 		}
 		reps := 3
-		if knownKey(key) {
+		if r := knownRank(key); r != nil {
+			if !rankLess([3]int{famRank(f.name), i, j.cfg}, *r) {
+				continue // a smaller case with this key is already on record
+			}
 			reps = 1
 		}
 		stable := true
@@ -518,10 +539,10 @@ func (w *worker) diagnose(f *family, ci int, i int) outcome {
 	cn, err := w.getConn(configs[ci], f.caps)
 	if err == nil {
 		cn.kill() // fresh connection: no state carried over
+		cn, err = w.getConn(configs[ci], f.caps)
 	}
-	cn, err = w.getConn(configs[ci], f.caps)
 	if err != nil {
-		run.EngineError("diagnose: cannot connect: %v", err)
+		return outcome{Key: "setup:" + errClass(err), Detail: map[string]interface{}{"error": err.Error(), "note": "greeting / LOGIN / ENABLE failed"}}
 	}
 	cn.capture = true
 	start := cn.p.OutLen()
@@ -581,7 +602,20 @@ func main() {
 	}
 	buildFamilies(thorough)
 
+	if only := os.Getenv("C03_ONLY"); only != "" {
+		// debugging aid: run the families whose name starts with $C03_ONLY (never exhaustive)
+		var keep []*family
+		for _, f := range families {
+			if strings.HasPrefix(f.name, only) {
+				keep = append(keep, f)
+			}
+		}
+		families = keep
+		defer func() { run.Exhaustive = false }()
+	}
+	t0 := time.Now()
 	jobs := mkJobs(thorough)
+	fmt.Printf("C03 %d jobs prepared in %.1fs\n", len(jobs), time.Since(t0).Seconds())
 	// big jobs first would starve nothing here; keep the deterministic order
 	nw := runtime.GOMAXPROCS(0)
 	if nw > 16 {
